@@ -690,6 +690,7 @@ func TestC18Levels(t *testing.T) {
 }
 
 func TestRegressC18(t *testing.T) {
+	c18EnabledIsAQuestion(t)
 	run := func(build func(h slog.Handler) slog.Handler, attrs ...slog.Attr) string {
 		sink := &memSink{}
 		h := build(zapslog.NewHandler(zapcore.NewCore(zapcore.NewJSONEncoder(zapcore.EncoderConfig{MessageKey: "m"}), sink, zapcore.DebugLevel)))
